@@ -746,13 +746,16 @@ Proof.
       destruct (mkind m); try solve [keeps_tac].
       * unfold process_logon. kst.
       * unfold process_seqreset. kst.
-      * unfold process_logout. keeps_step; [keeps_tac|]. keeps_step; [keeps_tac|].
-        destruct (wasact a1); [apply Hd2|apply Hd].
+      * unfold logout_counted. keeps_step; [keeps_tac|]. keeps_step; [keeps_tac|].
+        keeps_step; [kst|].
+        unfold process_logout. keeps_step; [keeps_tac|]. keeps_step; [keeps_tac|].
+        destruct (wasact a4); [apply Hd2|apply Hd].
     + unfold gap_check. keeps_step; [keeps_tac|]. destruct (st a1 <=? ST_DISC_BROKEN); [keeps_tac|].
       keeps_step; [keeps_tac|]. keeps_step; [|keeps_tac]. unfold check_gaps. kst.
   - assert (Hdis : forall v, keeps okstate (dispatch c m v)).
     { intros v. unfold dispatch. destruct (mkind m); try solve [keeps_tac].
-      - unfold process_resend.
+      - apply keeps_finally; [|unfold restore_handling; kst].
+        unfold process_resend.
         assert (Hl : forall rows a b, keeps okstate (replay_loop c rows a b)) by apply replay_loop_okstate.
         keeps_step; [keeps_tac|]. keeps_step; [kst|]. keeps_step; [keeps_tac|]. keeps_step; [keeps_tac|].
         keeps_step; [kst|]. keeps_step; [keeps_tac|]. keeps_step; [apply Hl|].
@@ -785,6 +788,104 @@ Proof.
   - inversion Ho; subst. split; [exact Hw|]. unfold s_after. cbn. apply step_okstate; assumption.
   - inversion Ho; subst. apply IH; [apply step_okstate; assumption|assumption].
 Qed.
+
+(* ------------------------------------------------------------------ RESENDREQ_HANDLING is transient *)
+
+(* since the repair R3c a ResendRequest that cannot be served no longer leaves the connection in
+   RESENDREQ_HANDLING: no operation ends in that state unless it started there *)
+Definition nh (w : world) : Prop := st w <> ST_HANDLING.
+
+Lemma keeps_nh_pres {A} (k : M A) : pres st k -> keeps nh k.
+Proof. intros H. apply (keeps_pres st (fun s => s <> ST_HANDLING)). exact H. Qed.
+
+Lemma state_set_nh s : s <> ST_HANDLING -> keeps nh (state_set s).
+Proof. intros Hs w _. unfold nh. rewrite state_set_st. exact Hs. Qed.
+
+Lemma send_msg_nh c m : keeps nh (send_msg c m).
+Proof. apply (send_msg_keeps_st c m (fun s => s <> ST_HANDLING)). intros _. stlia. Qed.
+
+Ltac knh :=
+  repeat first
+    [ keeps_step
+    | match goal with
+      | |- keeps _ (modw _) => apply keeps_modw; intros ? ?; assumption
+      | |- keeps nh (state_set _) => apply state_set_nh; stlia
+      | |- keeps nh (send_msg _ _) => apply send_msg_nh
+      | |- keeps nh (set_seq_num _ _) => apply keeps_nh_pres, set_seq_num_st
+      | |- keeps nh (recover_out _ _) => apply keeps_nh_pres, recover_out_pres
+      | |- keeps nh (persist_in _) => apply keeps_nh_pres, persist_in_pres; ins_solve
+      | |- keeps nh (set_next_num_in _) => apply keeps_nh_pres, set_next_num_in_pres; ins_solve
+      end ].
+
+Lemma disconnect_nh c ds lm : keeps nh (disconnect c ds lm).
+Proof.
+  unfold disconnect. keeps_step; [keeps_tac|]. destruct (st a <=? ST_DISC_BROKEN); [keeps_tac|].
+  destruct (ds <=? ST_DISC_BROKEN) eqn:E; [|apply keeps_bind_raise].
+  keeps_step; [keeps_tac|]. keeps_step; [knh|].
+  keeps_step; [destruct lm; knh|]. keeps_step; [knh|]. keeps_step; [|keeps_tac].
+  apply state_set_nh. stlia.
+Qed.
+
+Lemma restore_handling_nh w : nh (rw (restore_handling w)).
+Proof.
+  unfold restore_handling, nh. rewrite bind_unfold. cbn [getw rv rw re].
+  destruct (st w =? ST_HANDLING) eqn:E; [rewrite state_set_st; stlia|cbn; lia].
+Qed.
+
+Lemma dispatch_nh c m v : keeps nh (dispatch c m v).
+Proof.
+  unfold dispatch. destruct (mkind m); try solve [keeps_tac].
+  - intros w _. unfold finally_. destruct (rv (restore_handling (rw (process_resend c m w)))); cbn [rw]; apply restore_handling_nh.
+  - unfold process_testrequest. knh.
+  - unfold process_heartbeat. keeps_step; [keeps_tac|]. destruct (treq a); [|keeps_tac].
+    destruct (get T112 (mtags m)); [|keeps_tac]. destruct (negb _); [apply disconnect_nh|knh].
+Qed.
+
+Lemma process_message_nh c m now : keeps nh (process_message c m now).
+Proof.
+  intros w Hw. unfold process_message. destruct (validate_integrity c m w); try (apply disconnect_nh; exact Hw); [|exact Hw].
+  revert w Hw. change (keeps nh (r1 <- try_ (part1 c m) ;; after_part1 c m now r1)).
+  keeps_step.
+  - apply keeps_try. unfold part1. keeps_step; [keeps_tac|]. destruct (st a <? ST_NCE); [keeps_tac|].
+    destruct (_ && _); [keeps_step; [apply disconnect_nh|keeps_tac]|].
+    keeps_step.
+    + unfold pre_handlers. keeps_step; [knh|].
+      destruct (mkind m); try solve [keeps_tac].
+      * unfold process_logon. knh.
+      * unfold process_seqreset. knh.
+      * unfold logout_counted. keeps_step; [keeps_tac|]. keeps_step; [keeps_tac|].
+        keeps_step; [knh|].
+        unfold process_logout. keeps_step; [keeps_tac|]. keeps_step; [keeps_tac|]. apply disconnect_nh.
+    + unfold gap_check. keeps_step; [keeps_tac|]. destruct (st a1 <=? ST_DISC_BROKEN); [keeps_tac|].
+      keeps_step; [keeps_tac|]. keeps_step; [|keeps_tac]. unfold check_gaps. knh.
+  - assert (Hfin : keeps nh (finalize m now)).
+    { unfold finalize, finalize_tail. knh. }
+    unfold after_part1. destruct a as [[[|]|]|]; try solve [keeps_tac].
+    + keeps_step; [apply keeps_try, dispatch_nh|apply Hfin].
+    + keeps_step; [apply keeps_try, dispatch_nh|keeps_tac].
+Qed.
+
+Lemma step_nh c o : keeps nh (step c o).
+Proof.
+  destruct o as [m now|m|now|ds lm]; cbn [step].
+  - apply process_message_nh.
+  - apply send_msg_nh.
+  - unfold send_test_req. knh.
+  - apply disconnect_nh.
+Qed.
+
+Lemma run_no_stuck_handling c h : forall w,
+  st w <> ST_HANDLING -> Forall (fun s => st (s_after s) <> ST_HANDLING) (run c w h).
+Proof.
+  induction h as [|o h IH]; intros w Hw; cbn [run]; constructor.
+  - unfold s_after. cbn. apply (step_nh c o w Hw).
+  - apply IH. apply (step_nh c o w Hw).
+Qed.
+
+(* the former stuck case: BeginSeqNo beyond the last sent number: nothing can be served, the state is ACTIVE again *)
+Lemma unserved_resend_not_stuck :
+  st (final cfg0 w_acceptor [i_logon 1; OIn (inbound (S "2") 2 [(T7, S "9"); (T16, S "0")]) 0]) = ST_ACTIVE.
+Proof. vm_compute. reflexivity. Qed.
 
 (* ------------------------------------------------------------------ boolean class predicates, witnesses *)
 
@@ -855,20 +956,27 @@ Proof.
   split; [vm_compute; reflexivity|]. split; vm_compute; reflexivity.
 Qed.
 
-(* D27 (new): a non-numeric MsgSeqNum raises ValueError out of _process_message: nothing changes, the
-   connection is neither dropped nor is a Logout sent *)
-Lemma garbled_seqnum_refuted :
-  exists c w m now,
-    st w = ST_ACTIVE /\ get T49 (mtags m) = Some (c_target c) /\ get T56 (mtags m) = Some (c_sender c)
-    /\ (exists v, get T34 (mtags m) = Some v /\ py_int v = None)
-    /\ process_message c m now w = mkR (inr XValue) w [].
+(* D27 is repaired in the code: a MsgSeqNum that int() rejects is an integrity failure like a missing one *)
+Lemma garbled_seqnum_rejected c m w v :
+  get T8 (mtags m) = Some (c_begin c) -> get T49 (mtags m) = Some (c_target c) ->
+  get T56 (mtags m) = Some (c_sender c) -> get T34 (mtags m) = Some v -> py_int v = None ->
+  validate_integrity c m w = VStr R_GARBLED.
 Proof.
-  exists cfg0, (final cfg0 w_acceptor [i_logon 1]).
-  eexists (mkMsg (S "D") [(T8, S "FIX.4.4"); (T9, S "100"); (T35, S "D"); (T49, S "SRV"); (T56, S "CLI");
-                          (T34, S "abc"); (T52, S "20230101-10:00:00.000"); (T10, S "000")]), 0.
-  split; [vm_compute; reflexivity|]. split; [reflexivity|]. split; [reflexivity|].
-  split; [eexists; split; [reflexivity|vm_compute; reflexivity]|]. vm_compute. reflexivity.
+  intros H8 H49 H56 H34 Hv. unfold validate_integrity. rewrite H8, H49, H56, H34, Hv, !str_eqb_refl. reflexivity.
 Qed.
+
+(* the former D27 witness: ACTIVE acceptor, D(49, 56 correct, 34 = abc): Logout with a reason, dropped,
+   nothing delivered, next_num_in unchanged *)
+Definition m_garbled : msg :=
+  mkMsg (S "D") [(T8, S "FIX.4.4"); (T9, S "100"); (T35, S "D"); (T49, S "SRV"); (T56, S "CLI");
+                 (T34, S "abc"); (T52, S "20230101-10:00:00.000"); (T10, S "000")].
+Lemma garbled_seqnum_logout :
+  let w := final cfg0 w_acceptor [i_logon 1] in
+  let r := process_message cfg0 m_garbled 0 w in
+  st w = ST_ACTIVE /\ rv r = inl tt /\ st (rw r) = ST_DISC_BROKEN /\ nin (rw r) = nin w
+  /\ apps (re r) = [] /\ length (discs (re r)) = 1%nat
+  /\ map (fun wm => (mtype wm, get T58 (mtags wm))) (wires (re r)) = [(MT_LOGOUT, Some R_GARBLED)].
+Proof. cbn zeta. repeat split; vm_compute; reflexivity. Qed.
 
 (* non-vacuity: a normal acceptor session is inside the scope of the partial theorem *)
 Definition h_session := [i_logon 1; i_app 2; i_app 3; OSend (mkMsg (S "D") [(S "11", S "X")]); OIn (inbound (S "5") 4 []) 0; i_app 5].
